@@ -21,6 +21,9 @@ def run(rep, tier, seed, only=None):
     if not only:
         from contracts.c12_reads import add_read_obligations
         add_read_obligations(rep)
+        if tier == "thorough":
+            from gsvc.leancheck import add_lean_obligations
+            add_lean_obligations(rep, "C12", ["orth_mul"])
 
 
 def replay(path):
